@@ -184,9 +184,25 @@ static unsigned int outcount, flushed;
  * reply recogniser must see whole chunks - per byte it is inlined ~70 times per reply and
  * unrolled call site, which does not fit).  qmail-qmtpd emits every reply netstring with
  * one substdio_put/puts call; that is checked, not assumed. */
+/* WARMUP: the connection first carries one concrete, accepted package ("1:LF,0:,3:0:,," - empty
+ * sender, one empty recipient that rcpthosts accepts), handled by the same real main() and
+ * ignored by the observers; the package under test is then the SECOND one on the connection.
+ * Every message must be handled independently of what the connection carried before. */
+#ifdef WARMUP
+static const unsigned char warm_pkg[13] = { '1', ':', 10, ',', '0', ':', ',', '3', ':', '0', ':', ',', ',' };
+static unsigned int warm_pos;
+static int warm_phase = 1;            /* 1: first package in progress, 2: its reply expected, 0: done */
+#define WARM (warm_phase != 0)
+#else
+#define WARM 0
+#endif
+
 ssize_t vf_read(int fd, void *buf, size_t len)
 {
   CHECK(fd == 0 && len >= 1, "request is read from descriptor 0");
+#ifdef WARMUP
+  if (warm_pos < sizeof warm_pkg) { *(unsigned char *) buf = warm_pkg[warm_pos++]; return 1; }
+#endif
   /* the connection carries at most one package: after it the client has gone */
   if (n_close) return 0;
   if (inpos >= N) return 0;                    /* client has gone */
@@ -219,6 +235,15 @@ int substdio_put(substdio *s, const char *b, size_t len)
 {
   unsigned int i = 0, v = 0, nd = 0, k;
   CHECK(s == &ssout, "replies go to descriptor 1");
+#ifdef WARMUP
+  if (warm_phase == 2) {
+    unsigned int c = 0;
+    warm_phase = 0;
+    for (k = 0; k < 4; ++k) { if (k < len && b[k] == ':') { c = k; break; } }
+    CHECK(c >= 1 && c + 1 < len && b[c + 1] == 'K', "the warm-up package is acknowledged");
+    return 0;
+  }
+#endif
   ++outcount;
   for (k = 0; k < 3; ++k) {
     if (i < len && b[i] >= '0' && b[i] <= '9') { v = v * 10 + (unsigned int) (b[i] - '0'); ++i; ++nd; } else break;
@@ -264,6 +289,7 @@ int rcpthosts(char *buf, int len)
 {
   unsigned int i, j = MAXR;
   CHECK(!have_relay, "rcpthosts is not consulted for a relay client");
+  if (WARM) return 1;
   if (n_open != 1) return 1;
   /* which recipient?  the one whose last byte was just read (the ideal stream has no read-ahead) */
   for (i = 0; i < MAXR; ++i) { if (R.status == 2 && i < R.nr && R.roff[i] + R.rlen[i] == inpos) { j = i; break; } }
@@ -279,6 +305,7 @@ static void wr(void) { if (nwr++ == wfail_at) g_flagerr = write_failed = 1; }
 int qmail_open(struct qmail *q)
 {
   CHECK(q == &qq, "the daemon's queue connection");
+  if (WARM) return 0;
   ++n_open;
   if (n_open == 1 && open_fails) return -1;
   return 0;
@@ -286,12 +313,14 @@ int qmail_open(struct qmail *q)
 unsigned long qmail_qp(struct qmail *q) { return 42; }
 void qmail_fail(struct qmail *q)
 {
+  if (WARM) return;
   if (n_open != 1) return;
   CHECK(!n_close, "qmail_fail on an open connection"); g_flagerr = 1; ++daemon_fail_calls;
 }
 void qmail_put(struct qmail *q, char *s, unsigned int len)
 {
   unsigned int i;
+  if (WARM) return;
   if (n_open != 1) return;                     /* later package: cannot complete inside the bound */
   CHECK(!open_fails && !n_close, "qmail_put on an open connection");
   if (!n_received || n_from) order_bad = 1;
@@ -309,6 +338,7 @@ void qmail_put(struct qmail *q, char *s, unsigned int len)
 }
 void qmail_from(struct qmail *q, char *s)
 {
+  if (WARM) return;
   if (n_open != 1) return;
   CHECK(!open_fails && !n_close, "qmail_from on an open connection");
   if (n_from || n_to) order_bad = 1;
@@ -319,6 +349,7 @@ void qmail_from(struct qmail *q, char *s)
 void qmail_to(struct qmail *q, char *s)
 {
   unsigned int i;
+  if (WARM) return;
   if (n_open != 1) return;
   CHECK(!open_fails && !n_close, "qmail_to on an open connection");
   if (!n_from) order_bad = 1;
@@ -332,6 +363,9 @@ void qmail_to(struct qmail *q, char *s)
 }
 char *qmail_close(struct qmail *q)
 {
+#ifdef WARMUP
+  if (warm_phase == 1) { warm_phase = 2; return ""; }
+#endif
   CHECK(n_open == 1, "harness sizing: a second package cannot be completed inside the bound");
   CHECK(!open_fails && !n_close, "qmail_close on an open connection");
   ++n_close;
@@ -342,6 +376,7 @@ char *qmail_close(struct qmail *q)
 }
 void received(struct qmail *q, char *protocol, char *local, char *rip, char *rhost, char *rinfo, char *helo)
 {
+  if (WARM) return;
   if (n_open != 1) return;
   CHECK(!open_fails && dcount == 0 && !n_from, "Received line is the first thing written");
   CHECK(protocol[0] == 'Q' && protocol[1] == 'M' && protocol[2] == 'T' && protocol[3] == 'P' && !protocol[4], "with QMTP");
